@@ -125,6 +125,7 @@ func (s *Store) clone() []Ent {
 
 func (s *Store) GetTimestampOracle(ctx context.Context) (uint64, error) {
 	s.yield("tso")
+	defer s.yield("tso-done")
 	if s.ClockFn != nil {
 		return s.ClockFn(), nil
 	}
@@ -141,6 +142,7 @@ func (s *Store) GetPartitions(ctx context.Context, start, end []byte) ([]storage
 
 func (s *Store) Get(ctx context.Context, key []byte) ([]byte, error) {
 	s.yield("get")
+	defer s.yield("get-done")
 	i, ok := s.find(key)
 	if !ok {
 		return nil, storage.ErrKeyNotFound
@@ -169,6 +171,7 @@ func (it *iter) Close() error { return nil }
 // (start inclusive, end exclusive in both directions), from a snapshot taken now.
 func (s *Store) Iter(ctx context.Context, start []byte, end []byte, timestamp uint64, limit uint64) (storage.Iter, error) {
 	s.yield("iter")
+	defer s.yield("iter-done")
 	s.NIters++
 	it := &iter{pos: -1}
 	if bytes.Compare(start, end) <= 0 {
@@ -326,6 +329,7 @@ func (b *batch) Commit(ctx context.Context) error {
 
 func (s *Store) Del(ctx context.Context, key []byte) error {
 	s.yield("del")
+	defer s.yield("del-done")
 	switch s.fault("del") {
 	case FaultErr:
 		return ErrInjected
@@ -341,6 +345,7 @@ func (s *Store) Del(ctx context.Context, key []byte) error {
 
 func (s *Store) DelCurrent(ctx context.Context, it storage.Iter) error {
 	s.yield("delcurrent")
+	defer s.yield("delcurrent-done")
 	key, old := it.Key(), it.Val()
 	f := s.fault("delcurrent")
 	if f == FaultErr {
